@@ -453,7 +453,7 @@ fn same_relative_name_case(rng: &mut Rng, rec: &mut Recorder, scratch: &Path, ca
     let root = scratch.join(format!("c16n_{case}"));
     let _ = std::fs::remove_dir_all(&root);
     let levels = rng.urange(2, 3);
-    let (dir, file) = *rng.pick(&[("inc", "part.a2l"), ("sub", "main.a2l"), ("a", "a")]);
+    let (dir, file) = *rng.pick(&[("inc", "part.a2l"), ("sub", "main.a2l"), ("a", "a.a")]);
     let rel = format!("{dir}/{file}");
     let spelled = match rng.below(3) {
         0 => format!("\"{rel}\""),
@@ -696,8 +696,8 @@ pub fn run(args: &Args, rec: &mut Recorder) {
     rec.rule = "evaluation = one generated document split at element boundaries into a main file and include files (1-3 levels, sub-directories, quoted/unquoted names, / and \\ separators, include directives inside nested blocks and in the A2ML block) written to a fresh directory tree: load(main) must equal load_from_string(text with every directive replaced by the file content); the file written next to main must reload to an equal model and keep the directives of the main file; after merge_includes() the text must contain no /include and load to an equal model; plus one evaluation per fault case (missing file, directory instead of file, empty file, self inclusion, mutual inclusion, missing nested file, directive without name) which must end in an error naming the directive. distinct_nontrivial = distinct file trees by content hash".into();
     rec.assumptions.push("include files hold runs of complete sibling elements; an empty include file is transparent (no fault)".into());
     let g = Grammar::load_default();
-    let total: u64 = if args.thorough { 100_000 } else { 3_000 };
-    let n_faults: u64 = if args.thorough { 1_000 } else { 120 };
+    let total: u64 = if args.thorough { 100_000 } else { 10_000 };
+    let n_faults: u64 = if args.thorough { 1_000 } else { 300 };
     let scratch = crate::c03::scratch_dir(args);
     run_cases(args, rec, total + n_faults, crate::util::reset_budget, |rng, case, rec| {
         if case < n_faults {
